@@ -77,6 +77,12 @@ func (ch *Channel) Invoke(ctx context.Context, methodName string, req, resp inte
 	r.Header = h
 	reply, err := ch.Transport.RoundTrip(r.WithContext(ctx))
 	if err != nil {
+		if ctxErr := ctx.Err(); ctxErr != nil {
+			// the transport reports the cause of a context that was ended with
+			// one (context.WithCancelCause, WithTimeoutCause), or may wrap the
+			// context's error: the call ended because its context did
+			return statusFromContextError(ctxErr)
+		}
 		return statusFromContextError(err)
 	}
 
